@@ -136,6 +136,8 @@ class C11(Prop):
             st = {'basic': BasicState, 'final': FinalState, 'compound': CompoundState, 'orthogonal': OrthogonalState}[k](n, **kw)
             contracts(st)
             sc.add_state(st, parent)
+            if k in ('compound', 'orthogonal') and parent is not None and rnd.random() < 0.12:
+                return n        # a composite state without children (valid: nothing says it needs any)
             if k in ('compound', 'orthogonal'):
                 ch = [mk(n, depth + 1) for _ in range(rnd.randint(1, 3))]
                 if k == 'compound':
